@@ -8,7 +8,7 @@ COQ_FILES = ["Props/C07.v", "Obl/DispatchOk.v", "Obl/EnumsOk.v"]
 
 
 def correspondence(ctx):
-    n = 400 if ctx.tier == "thorough" else 50
+    n = 400 if ctx.tier == "thorough" else 52
     CC.run_sessions(ctx, "C07", n, lambda rng: dict(n_events=rng.choice([40,70]), burst=0.5, fault=0.1, bad=0.05, resets=0.3), lambda rng: dict(required=rng.choice([1,2,2,3]), max_steps=rng.choice([1,2,3])))
 
 
